@@ -57,8 +57,8 @@ func runChecks() {
 			sc := &scenario{ID: len(cases) + 1, Dialect: d, N: 1, Roles: name, Req: "realm", Dir: "checks-updown"}
 			cases = append(cases, sc)
 			sc.First = line + 1
-			emit(ev{"ev": "reset", "c": sc.ID, "req": "realm", "schema": marker,
-				"start": map[string]any{"tables": []string{"a"}, "fks": [][4]string{}}, "want": map[string]any{"tables": []string{"a"}, "fks": [][4]string{}}})
+			emit(ev{"ev": "reset", "c": sc.ID, "req": "realm", "schema": marker, "dialect": d,
+				"start": map[string]any{"tables": []string{"a"}, "fks": []fk5{}}, "want": map[string]any{"tables": []string{"a"}, "fks": []fk5{}}})
 			pl, err := planner(d).PlanChanges(context.Background(), "plan", []schema.Change{&schema.ModifyTable{T: t, Changes: cs}})
 			if err != nil {
 				sc.Err = err.Error()
